@@ -63,14 +63,14 @@ func (prop) Describe() core.Description {
 		StateMeasure: "distinct (codec, byte order, type tree shape with layouts and emptiness pattern, fault kinds fired) tuples",
 		Assumptions: []string{
 			"the reference codec sim/refwkb (written from the ISO/OGC WKB and PostGIS EWKB documents over the neutral model, never calling go-geom) is correct",
-			"members of collections carry SRID 0 (what the formats prescribe for a member SRID differs between documents; excluded rather than guessed)",
+			"bytes are compared for collections whose members carry SRID 0 (what the formats prescribe for a member SRID differs between documents); for members with their own SRID only the round trip through the library's own encoding is checked",
 			"a mixed-layout collection's own dimension code is the join of its members' layouts, as the documentation of GeometryCollection.Layout promises",
 			"the simulated reader honours the io.Reader contract (0 <= n <= len(p), at most 3 consecutive (0,nil) stalls); the simulated writer honours io.Writer (n < len(p) only together with an error)",
 		},
 		RealComponents: []string{"go-geom root package (constructors, Push, accessors)", "encoding/wkb", "encoding/ewkb", "encoding/wkbcommon", "encoding/wkbhex", "encoding/ewkbhex", "wkb/ewkb database/sql Scanner/Valuer wrappers", "stdlib io, encoding/binary, bytes, encoding/hex"},
 		StubComponents: []string{"io.Writer (simio.Writer: failure offset, short/whole-call, sticky/transient)", "io.Reader (simio.Reader: chunking, stalls, data+EOF, error at offset, truncation)", "database/sql driver (Scan/Value are called directly)"},
 		FaultKinds:     []string{"write-fail-sticky-short", "write-fail-sticky-whole", "write-fail-transient", "read-split", "read-stall", "read-data+eof", "read-error", "read-error-with-data", "read-truncate"},
-		Probes:         []string{"probe:error-inside-count", "probe:split-inside-type-word", "probe:stall-before-byte-order", "probe:srid>=2^31", "probe:xdr+zm+empty-member", "probe:nested-collection", "probe:mixed-layout-collection", "probe:empty-point", "probe:rejected-unsupported-layout", "probe:rejected-empty-point", "probe:concatenated>=2", "probe:enum-capped"},
+		Probes:         []string{"probe:error-inside-count", "probe:split-inside-type-word", "probe:stall-before-byte-order", "probe:srid>=2^31", "probe:xdr+zm+empty-member", "probe:nested-collection", "probe:mixed-layout-collection", "probe:empty-point", "probe:rejected-unsupported-layout", "probe:rejected-empty-point", "probe:concatenated>=2", "probe:enum-capped", "probe:member-srid-round-trip"},
 	}
 }
 
@@ -115,8 +115,8 @@ func valid(g *mgeom.Geom, depth int) error {
 		if c == nil {
 			return fmt.Errorf("nil member")
 		}
-		if c.S != 0 {
-			return fmt.Errorf("member with SRID")
+		if c.S < 0 || c.S > 1<<32-1 {
+			return fmt.Errorf("bad member SRID")
 		}
 		if err := valid(c, depth+1); err != nil {
 			return err
@@ -160,6 +160,11 @@ func (prop) Generate(r *prng.Rand, phase string) any {
 			g.S = 0 // plain WKB has no SRID field
 		}
 		stripZeroLayout(g)
+		if s.Codec.EWKB && g.T == mgeom.GC && r.Chance(0.25) {
+			// collection members carrying their own SRID (the same as the
+			// collection's or another one): only the round trip is checked
+			setMemberSRIDs(r, g, g.S)
+		}
 		s.Geoms = append(s.Geoms, g)
 	}
 	if r.Chance(0.5) {
@@ -185,6 +190,34 @@ func (prop) Generate(r *prng.Rand, phase string) any {
 	return s
 }
 
+func setMemberSRIDs(r *prng.Rand, g *mgeom.Geom, parent int) {
+	for _, c := range g.G {
+		switch r.Intn(3) {
+		case 0:
+			c.S = parent
+		case 1:
+			c.S = mgeom.SRID(r)
+		}
+		setMemberSRIDs(r, c, c.S)
+	}
+}
+
+func hasMemberSRID(g *mgeom.Geom) bool {
+	for _, c := range g.G {
+		if c.S != 0 || hasMemberSRID(c) {
+			return true
+		}
+	}
+	return false
+}
+
+func clearMemberSRIDs(g *mgeom.Geom) {
+	for _, c := range g.G {
+		c.S = 0
+		clearMemberSRIDs(c)
+	}
+}
+
 // a non-collection with NoLayout can only be empty
 func stripZeroLayout(g *mgeom.Geom) {
 	if g.T != mgeom.GC && g.L == 0 {
@@ -195,6 +228,50 @@ func stripZeroLayout(g *mgeom.Geom) {
 		c.S = 0
 		stripZeroLayout(c)
 	}
+}
+
+// memberSRIDRoundTrip checks only what the property states without guessing
+// bytes: a collection whose members carry SRIDs encodes, and decoding that
+// encoding gives back every member's SRID.
+func memberSRIDRoundTrip(res *core.Result, log *core.Log, lib wkbadapt.Lib, s *Scenario, m *mgeom.Geom) bool {
+	res.Count("probe:member-srid-round-trip", 1)
+	g, err := mgeom.Build(m.Clone())
+	if err != nil {
+		res.Fail("build", "build:"+m.T, "building %s failed: %v", m, err)
+		return false
+	}
+	var b []byte
+	if p := core.Guard(func() { b, err = lib.Marshal(g) }); p != "" {
+		res.Fail("panic", "panic:marshal:"+core.PanicSite(p), "Marshal panicked on %s: %s", m, p)
+		return false
+	}
+	if err != nil {
+		// unencodable for another reason (layout, ...): covered by the main flow
+		return true
+	}
+	var g2 geom.T
+	if p := core.Guard(func() { g2, err = lib.Unmarshal(b) }); p != "" {
+		res.Fail("panic", "panic:unmarshal:"+core.PanicSite(p), "Unmarshal panicked on %x: %s", b, p)
+		return false
+	}
+	log.Addf("member-SRID round trip: %d bytes err=%v", len(b), err)
+	if err != nil {
+		res.Fail("read-failed", "round-trip-failed:member-srid", "the library cannot decode its own encoding %x of %s: %v", b, m, err)
+		return false
+	}
+	if hasCarveOut(m, s.Codec) {
+		return true
+	}
+	obs, oerr := mgeom.Observe(g2)
+	if oerr != nil {
+		res.Fail("ill-formed", "ill-formed:member-srid", "decoded geometry is ill-formed: %v", oerr)
+		return false
+	}
+	if d := mgeom.Diff(obs, m); d != "" {
+		res.Fail("decoded-differs", "decoded-differs:member-srid", "encode-then-decode of a collection whose members carry SRIDs gives %s, original %s: %s (bytes %x)", obs, m, d, b)
+		return false
+	}
+	return true
 }
 
 // GenReadPlan draws a read plan for a stream of about n bytes.
@@ -323,6 +400,12 @@ func (prop) Execute(scAny any, phase string, log *core.Log) core.Result {
 	faultFired := false
 	for gi, m := range s.Geoms {
 		m = m.Clone().Norm()
+		if hasMemberSRID(m) {
+			if s.Codec.EWKB && !memberSRIDRoundTrip(&res, log, lib, s, m) {
+				return res
+			}
+			clearMemberSRIDs(m)
+		}
 		e := &enc{m: m}
 		e.ref, e.fields, e.refErr = refwkb.Encode(s.Codec, m)
 		key.WriteString("|" + shapeKey(m))
